@@ -1828,6 +1828,9 @@ func patchCode(context *funcContext) { // {{{
 		curop := opGetOpCode(inst)
 		switch curop {
 		case OP_CLOSURE:
+			if reg := opGetArgA(inst); reg > maxreg {
+				maxreg = reg
+			}
 			pc += int(context.Proto.FunctionPrototypes[opGetArgBx(inst)].NumUpvalues)
 			moven = 0
 			continue
@@ -1838,16 +1841,18 @@ func patchCode(context *funcContext) { // {{{
 				moven = 0
 				continue
 			}
-		case OP_SETGLOBAL, OP_SETUPVAL, OP_EQ, OP_LT, OP_LE, OP_TEST,
-			OP_TAILCALL, OP_RETURN, OP_FORPREP, OP_FORLOOP, OP_TFORLOOP,
-			OP_CLOSE:
-			/* nothing to do */
+		case OP_EQ, OP_LT, OP_LE, OP_CLOSE:
+			/* A is not a register */
 		case OP_CALL:
 			if reg := opGetArgA(inst) + opGetArgC(inst) - 2; reg > maxreg {
 				maxreg = reg
 			}
 		case OP_VARARG:
-			if reg := opGetArgA(inst) + opGetArgB(inst) - 1; reg > maxreg {
+			reg := opGetArgA(inst) + opGetArgB(inst) - 1
+			if opGetArgB(inst) == 0 {
+				reg = opGetArgA(inst)
+			}
+			if reg > maxreg {
 				maxreg = reg
 			}
 		case OP_SELF:
@@ -1880,6 +1885,20 @@ func patchCode(context *funcContext) { // {{{
 		default:
 			if reg := opGetArgA(inst); reg > maxreg {
 				maxreg = reg
+			}
+		}
+
+		// NumUsedRegisters bounds every register an instruction names
+		if curop != OP_JMP && opProps[curop].Type == opTypeABC {
+			if m := opProps[curop].ModeArgB; m == opArgModeR || m == opArgModeK {
+				if reg := opGetArgB(inst); !opIsK(reg) && reg > maxreg {
+					maxreg = reg
+				}
+			}
+			if m := opProps[curop].ModeArgC; m == opArgModeR || m == opArgModeK {
+				if reg := opGetArgC(inst); !opIsK(reg) && reg > maxreg {
+					maxreg = reg
+				}
 			}
 		}
 
